@@ -29,6 +29,9 @@ def _comembership(lab):
 
 def check(case, ctx):
     A = gen.layout(np.array(case["A"]), case.get("order"))
+    if case.get("dtype"):
+        A = gen.layout(np.array(case["A"]).astype(case["dtype"]), case.get("order"))
+        ctx.label("dtype:" + case["dtype"])
     n = len(A)
     fails = []
     A0 = A.copy()
@@ -163,7 +166,7 @@ def late_merge(draw, nmax):
 
 @st.composite
 def cases(draw, nmax):
-    fam = draw(st.sampled_from(["er", "forest", "isolated", "late_merge", "late_merge", "structured", "asym", "asym-weights", "copies_er"]))
+    fam = draw(st.sampled_from(["late_merge", "er", "forest", "isolated", "asym-weights", "clique+chain", "structured", "asym", "copies_er", "late_merge"]))
     if fam == "er":
         n = draw(st.integers(2, nmax))
         A = draw(gen.er_adj(n, False, draw(st.sampled_from(["sparse", "sparse", "medium"]))))
@@ -187,6 +190,12 @@ def cases(draw, nmax):
         m = draw(st.integers(2, max(2, nmax // 3)))
         A = gen.block_diag(draw(gen.er_adj(m, False, "medium")), draw(gen.er_adj(m, False, "sparse")),
                            draw(gen.tree_adj(m)))
+    elif fam == "clique+chain":
+        # a dense component next to a component with a very long shortest path (walk counts explode while the search is still running)
+        big = nmax >= 30
+        c = draw(st.integers(10, 20)) if big else draw(st.integers(3, max(3, nmax // 3)))
+        L = draw(st.integers(30, 45)) if big else draw(st.integers(2, max(2, nmax - c)))
+        A = gen.block_diag(gen.complete_adj(c), gen.path_adj(L))
     elif fam == "asym-weights":
         # symmetric support, unequal weights on the two directions of one connection
         n = draw(st.integers(2, min(nmax, 10)))
@@ -202,7 +211,8 @@ def cases(draw, nmax):
     if fam == "asym-weights":
         W = draw(gen.weights_for(A, draw(st.sampled_from(["dyadic", "signed"])), False))
         W[0, 1] = 0.75
-        W[1, 0] = draw(st.sampled_from([0.25, -0.75, 0.5]))
+        # clearly different, or different by a hair (one ulp, 1e-10 relative): still not an undirected network
+        W[1, 0] = draw(st.sampled_from([float(np.nextafter(0.75, 1.0)), 0.25, 0.75 * (1 + 1e-10), -0.75, 0.75 + 1e-9, 0.5]))
         if draw(st.booleans()):
             W = gen.apply_perm(W, draw(gen.perm(n)))
     elif fam != "asym":
@@ -224,7 +234,10 @@ def cases(draw, nmax):
         for i, b in enumerate(bits):
             if b:
                 W[i, i] = 1 if W.dtype.kind == "i" else 0.5
-    return {"A": W, "family": fam, "order": draw(st.sampled_from(gen.ORDERS)), "cut": draw(st.integers(0, 3))}
+    case = {"A": W, "family": fam, "order": draw(st.sampled_from(gen.ORDERS)), "cut": draw(st.integers(0, 3))}
+    if np.all((W == 0) | (W == 1)):
+        case["dtype"] = draw(st.sampled_from(gen.BINARY_DTYPES))
+    return case
 
 
 _SPACES = {}
@@ -248,4 +261,5 @@ def units(tier):
              shards=(4, 16), space=_space(tier).describe() + ", empty diagonal, 0/1 float64"),
         Unit("random-n<=14", check, strategy=lambda: cases(14), examples=(5000, 75000), shards=(8, 16)),
         Unit("random-n<=40", check, strategy=lambda: cases(40), examples=(1200, 24000), shards=(8, 16)),
+        Unit("random-n<=65", check, strategy=lambda: cases(65), examples=(64, 1200), shards=(16, 16)),
     ]
